@@ -976,7 +976,7 @@ pub fn main(args: &[String]) -> i32 {
         "assumptions": [
             "the batch system is simulated by a QueueHandler; the real PBS/Slurm handlers (script generation, qsub/sbatch parsing) are not part of this check",
             "demand is judged only where it is unambiguous: no waiting task at all = no demand; far more waiting 1-cpu tasks than all queued allocations could run = demand (Q5/Q8), everything in between only feeds Q1-Q4, Q6, Q7",
-            "per worker, the connect notification precedes the loss notification (both come from one ordered channel in the real server); connects may name unknown or already finished allocations",
+            "worker notifications include losses before/without a connect and duplicated losses; connects may name unknown or already finished allocations",
             "limiter time is virtual (RateLimiter.last_submission is shifted); real elapsed microseconds can only make an attempt later, never earlier"
         ],
         "wall_s": start.elapsed().as_secs_f64(),
